@@ -64,8 +64,8 @@ Definition judge (c : case) : verdict :=
     match obs with
     | None => VViolation                     (* a forwarding request must be answered *)
     | Some d =>
-      if payload_ok v_spec i d with_mac then VOk
-      else if trigger_unsigned data (f_protocol i) k && payload_ok v_impl i d with_mac then VKnown 1
+      (* C20-1 (unsigned request byte) is fixed: a recurrence is a violation *)
+      if payload_ok v_spec i d with_mac then (if v_impl =? v_spec then VOk else VMismatch)
       else VViolation
     end
   | CRequired vm es obs =>
